@@ -51,6 +51,7 @@ type FuncContract struct {
 	Invs     map[int][]*Clause
 	Decr     map[int]*Clause
 	Bounded  map[int]string // loop ordinal -> name of the bounded stand-in covering its termination
+	TrustedEnsures []*Clause // assumed at call sites, not checked against the body (listed in the trusted base)
 	Comparator *Clause // closures passed to sort.Slice: ret == Comparator(i, j)
 	Steps    map[int][]*Clause // relational per-iteration obligations (checked on back edges only)
 	Entries  map[int][]*Clause // obligations on loop entry only
@@ -99,7 +100,7 @@ func newContracts() *Contracts {
 }
 
 var clauseKeywords = map[string]bool{"func": true, "props": true, "requires": true, "ensures": true, "assigns": true,
-	"loop": true, "inline": true, "lemma": true, "pure": true, "ghost": true, "canary": true, "trusted": true, "canarylemma": true, "comparator": true}
+	"loop": true, "inline": true, "lemma": true, "pure": true, "ghost": true, "canary": true, "trusted": true, "canarylemma": true, "comparator": true, "trusted-ensures": true}
 
 func (cs *Contracts) parseFile(path, pkgPath string) error {
 	data, err := os.ReadFile(path)
@@ -193,6 +194,15 @@ func (cs *Contracts) parseFile(path, pkgPath string) error {
 				}
 				cur.Ensures = append(cur.Ensures, c)
 			}
+		case "trusted-ensures":
+			if cur == nil {
+				return fmt.Errorf("%s:%d: trusted-ensures outside func", path, r.line)
+			}
+			c, err := mk("ensures", rest)
+			if err != nil {
+				return err
+			}
+			cur.TrustedEnsures = append(cur.TrustedEnsures, c)
 		case "comparator":
 			if cur == nil {
 				return fmt.Errorf("%s:%d: comparator outside func", path, r.line)
